@@ -15,6 +15,7 @@ import (
 	forwardercomp "github.com/noble-assets/orbiter/v2/keeper/component/forwarder"
 	executortypes "github.com/noble-assets/orbiter/v2/types/component/executor"
 	forwardertypes "github.com/noble-assets/orbiter/v2/types/component/forwarder"
+	"github.com/noble-assets/orbiter/v2/types/core"
 
 	"orbverif/fw"
 	"orbverif/run"
@@ -443,7 +444,13 @@ func probeActionEdgesC09(e *fw.Env, l *Lab, ctx sdk.Context, pm *PauseModel, his
 					Detail: "a payload with a fee action (no entries) is forwarded while ACTION_FEE is paused", Witness: wtn})
 			}
 		default:
-			if o.Success() {
+			// (if an application does wire a controller for the action, only the pause is judged)
+			if o.Success() && w.App.OrbiterKeeper.Executor().Router().HasRoute(core.ACTION_SWAP) {
+				if pm.Actions[2] {
+					e.Res.Violate(fw.Violation{Property: "C09", Kind: "paused-action-executed", Tags: map[string]string{"probe": p.name},
+						Detail: "a payload containing ACTION_SWAP is forwarded while ACTION_SWAP is paused", Witness: wtn})
+				}
+			} else if o.Success() {
 				e.Res.Violate(fw.Violation{Property: "C09", Kind: "action-without-controller-skipped", Tags: map[string]string{"probe": p.name},
 					Detail: fmt.Sprintf("a payload containing ACTION_SWAP (no controller in this application; paused=%v) is acknowledged as successful", pm.Actions[2]), Witness: wtn})
 			}
